@@ -37,6 +37,7 @@ pub fn write(
             "excluded_known": m.known,
             "measurements": m.notes,
             "engines": m.engines,
+            "fuzz_stage": m.fuzz,
             "exhaustive": false,
             "exhaustive_subspace": exhaustive,
             "infrastructure_notes": infra,
